@@ -805,6 +805,9 @@ class Hist:
 
     def do_remove_metabolites(self, a, op, env):
         ms = [self.met(a, i) for i in op["ms"]]
+        if op.get("repeat"):
+            ms = ms + ms[:1]  # the same metabolite listed twice: removed once
+            self.stats["probe:remove_metabolites_repeated_entry"] += 1
         if op.get("via") == "met" and len(ms) == 1:
             ms[0].remove_from_model(destructive=op.get("destructive", False))
         else:
@@ -879,6 +882,22 @@ class Hist:
         if ent is None or ent[0].model is not None:
             raise Skip("no removed reaction object of that id")
         obj, spec = ent
+        if op.get("how") == "cancel":
+            # a metabolite of the removed reaction is cancelled out (the model's metabolites do not list this reaction any more)
+            mets = sorted(obj._metabolites, key=lambda m: m.id)
+            if not mets:
+                raise Skip("empty")
+            mt = mets[op.get("j", 0) % len(mets)]
+            try:
+                obj.subtract_metabolites({mt: obj._metabolites[mt]})
+            except Exception as e:
+                raise Violation("unexpected_exception", {"what": "cancelling a metabolite of a removed reaction object raises",
+                                                         "exception": repr(e)[:200]}, culprit=op)
+            if any(c == 0 for c in obj._metabolites.values()) or mt in obj._metabolites:
+                raise Violation("xref", {"what": "a cancelled metabolite stays in the removed reaction object"}, culprit=op)
+            spec["x"]["mets"].pop(mt.id, None)
+            self.stats["probe:removed_reaction_object_metabolite_cancelled"] += 1
+            return
         obj.gene_reaction_rule = op["rule"]
         try:
             spec["x"]["rule"] = gprtree.parse(obj.gene_reaction_rule)
@@ -1078,7 +1097,11 @@ class Hist:
             if not a.model.groups.has_id(gid):
                 raise Skip("no group")
             items.append(a.model.groups.get_by_id(gid))
-        a.model.remove_groups(items)
+        if op.get("as") == "id":
+            a.model.remove_groups(op["ids"][0])  # "a string representing group id" (docstring)
+            self.stats["probe:remove_groups_by_id_string"] += 1
+        else:
+            a.model.remove_groups(items)
 
     def do_enter(self, a, op, env):
         a.model.__enter__()
@@ -1317,8 +1340,22 @@ class Hist:
             ent = self.removed.get((self.actors.index(a), op["r"]))
             if ent is None:
                 raise Skip("no removed reaction object")
-            c = ent[0].copy()
-            self._detach(op["key"], c, copy.deepcopy(ent[1]["x"]))
+            # the removed reaction still holds metabolite and gene objects, some of which belong to the model and some (orphans
+            # removed with it, or removed later) to no model: copying or doing arithmetic with it must leave every one of them
+            # with the owner it had
+            src = ent[0]
+            owners = [(x, x._model) for x in list(src._metabolites) + list(src._genes)]
+            how = op.get("how", "copy")
+            c = src.copy() if how == "copy" else src * 2 if how == "mul" else src + src if how == "add" else src - src
+            changed = [f"{type(x).__name__} {x.id}: model {getattr(m0, 'id', None)!r} -> {getattr(x._model, 'id', None)!r}"
+                       for x, m0 in owners if x._model is not m0]
+            if changed:
+                raise Violation("isolation", {"what": f"Reaction {how} on a removed reaction changed the owner of the operand's own objects",
+                                              "changed": changed[:4]}, culprit=op)
+            if len({id(m0) for _, m0 in owners}) > 1:
+                self.stats["probe:removed_reaction_with_mixed_ownership_copied"] += 1
+            if how == "copy":
+                self._detach(op["key"], c, copy.deepcopy(ent[1]["x"]))
             self.stats["probe:removed_reaction_object_copied"] += 1
             return
         r = self.rxn(a, op["r"])
@@ -1329,6 +1366,17 @@ class Hist:
 
     def do_rxn_arith(self, a, op, env):
         r = self.rxn(a, op["r"])
+        if op.get("poison"):
+            # the deep copy inside Reaction.copy fails (a value that cannot be copied): the operand stays what and where it was
+            r.notes["__uncopyable__"] = (i for i in range(2))
+            try:
+                try:
+                    r.copy() if op["f"] in ("+0", "0+", "sum1") else r * 2
+                except TypeError:
+                    self.stats["probe:reaction_copy_failed_half_way"] += 1
+            finally:
+                r.notes.pop("__uncopyable__", None)
+            return
         if op["f"] == "*":
             c = r * op["k"]
             pred = copy.deepcopy(a.ref.rxns[op["r"]])
@@ -1770,6 +1818,8 @@ def gen_op(rng, H, sw):
     elif k == "remove_metabolites":
         op.update(ms=sorted({mid() for _ in range(rng.randint(1, 2))}), destructive=rng.random() < 0.4,
                   via=rng.choice(["model", "met"]), single=rng.random() < 0.3)
+        if rng.random() < 0.1:
+            op.update(repeat=True, via="model", single=False)
     elif k == "add_boundary":
         typ = rng.choice(["exchange", "demand", "sink", "custom"])
         op.update(m=mid(), type=typ)
@@ -1939,6 +1989,8 @@ def gen_op(rng, H, sw):
         if not ref.groups:
             return gen_fallback(op, rid, rng)
         op["ids"] = [rng.choice(sorted(ref.groups))]
+        if rng.random() < 0.25:
+            op["as"] = "id"
     elif k == "group_edit":
         if not ref.groups:
             return gen_fallback(op, rid, rng)
@@ -1993,6 +2045,8 @@ def gen_op(rng, H, sw):
         old = sorted(gprtree.genes(H.removed[(ai, r0)][1]["x"]["rule"])) if H.removed[(ai, r0)][1]["x"]["rule"] is not None else []
         keep = rng.choice(old) if old else rng.choice(GENES[: sw["n_genes"]])
         op.update(rid=r0, rule=rng.choice([keep, f"{keep} or {rng.choice(GENES[: sw['n_genes']])}", f"{keep} and gX"]))
+        if rng.random() < 0.3:
+            op.update(how="cancel", j=rng.randint(0, 3))
     elif k == "det_mutate":
         dets = sorted(H.detached)
         if not dets:
@@ -2004,11 +2058,13 @@ def gen_op(rng, H, sw):
     elif k == "rxn_copy":
         op.update(r=rid(), key=f"d{len(H.detached)}")
         cands = sorted(r for (i, r) in H.removed if i == ai)
-        if cands and rng.random() < 0.3:
-            op.update(r=rng.choice(cands), src="removed")
+        if cands and rng.random() < 0.4:
+            op.update(r=rng.choice(cands), src="removed", how=rng.choice(["copy", "copy", "mul", "add", "sub"]))
     elif k == "rxn_arith":
         f = rng.choice(["*", "+", "-", "+0", "0+", "sum1"])
         op.update(r=rid(), f=f, key=f"d{len(H.detached)}")
+        if rng.random() < 0.08:
+            op["poison"] = True
         if f == "*":
             op["k"] = rng.choice(MULTS)
         elif f in ("+", "-"):
